@@ -7,6 +7,8 @@ import SameVerif.Model.Time
 import SameVerif.Spec.OracleC15
 import SameVerif.Model.Framer
 import SameVerif.Spec.Frame
+import SameVerif.Model.Assembler
+import SameVerif.Spec.OracleAsm
 import Driver.Util
 /-
   samemodel: the executable side of the correspondence check.
@@ -14,7 +16,6 @@ import Driver.Util
 -/
 open SameVerif SameVerif.Driver
 
-def MAXLEN : Nat := 268   -- replaced by Gen.Constants once generated
 
 def errName : DecodeErr → String
   | .unrecognizedPrefix => "UnrecognizedPrefix"
@@ -260,6 +261,75 @@ def frStream (c : FCfg) (bs : List Byte) : String :=
     (s', showLink ls :: outs, false)) (FState.idle, [], true)
   rle outs.reverse
 
+-- ---------------------------------------------------------------- assembler (C02, C04, C05, C08)
+def showTransport : Transport → String
+  | .idle => "idle"
+  | .assembling => "assembling"
+  | .message r => s!"msg {showRes r}"
+
+def showAState (s : AState) : String :=
+  let h := ";".intercalate (s.history.map (fun t => s!"{hexOf t.data}@{t.deadline}"))
+  let p := match s.pending with
+    | some t => s!"{showRes t.data}@{t.deadline}"
+    | none => "-"
+  let v := match s.previous with
+    | some t => s!"{showMsg t.data}@{t.deadline}"
+    | none => "-"
+  s!"H[{h}] P[{p}] V[{v}]"
+
+/-- a burst of a scenario: role tag, bytes, event tick, length of the link-busy window before it -/
+structure ScBurst where
+  role : String
+  bytes : List Byte
+  t : Nat
+  busy : Nat
+
+def parseScBurst (w : String) : Option ScBurst :=
+  match w.splitOn ":" with
+  | [role, rest] =>
+    match rest.splitOn "@" with
+    | [b, t, busy] =>
+      match unhex b, t.toNat?, busy.toNat? with
+      | some b, some t, some busy => some ⟨role, b, t, busy⟩
+      | _, _, _ => none
+    | _ => none
+  | _ => none
+
+/-- run a scenario on the assembler model: `assemble` at each burst tick, `idle` at every other tick
+    that is not inside a link-busy window; returns (tick, output) for every message output -/
+def runScenario (tEnd : Nat) (bursts : List ScBurst) : List (Nat × MsgResult) := Id.run do
+  let mut st : AState := {}
+  let mut outs : List (Nat × MsgResult) := []
+  let mut rest := bursts
+  -- bursts are sorted by time; `cur` = the next burst
+  for tick in [1:tEnd + 1] do
+    match rest with
+    | b :: more =>
+      if tick == b.t then
+        let (s', o) := aAssemble st b.bytes tick
+        st := s'
+        rest := more
+        match o with
+        | .message r => outs := (tick, r) :: outs
+        | _ => pure ()
+      else if tick + b.busy > b.t then pure ()       -- link busy: nobody polls
+      else
+        let (s', o) := aIdle st tick
+        st := s'
+        match o with
+        | .message r => outs := (tick, r) :: outs
+        | _ => pure ()
+    | [] =>
+      let (s', o) := aIdle st tick
+      st := s'
+      match o with
+      | .message r => outs := (tick, r) :: outs
+      | _ => pure ()
+  return outs.reverse
+
+def showScenarioOut (outs : List (Nat × MsgResult)) : String :=
+  if outs.isEmpty then "-" else ",".intercalate (outs.map (fun (t, r) => s!"{t}:{(showRes r).replace " " "_"}"))
+
 def vote3hash (lo hi : Nat) : UInt64 := Id.run do
   let mut h := fnvInit
   for i in [lo:hi] do
@@ -296,6 +366,31 @@ def parseAns (ws : List String) : Ans :=
     | _, _, _, _ => .other (" ".intercalate ws)
   | [w] => if w.startsWith "err:" then .err (w.drop 4).toString else .other w
   | ws => .other (" ".intercalate ws)
+
+def parseScOut (w : String) : Option Spec.Out :=
+  match w.splitOn ":" with
+  | t :: rest =>
+    match t.toNat? with
+    | some t =>
+      let body := ":".intercalate rest
+      if body == "eom" then some ⟨t, .eom⟩
+      else if body.startsWith "err" then some ⟨t, .err⟩
+      else match body.splitOn "_" with
+        | ["som", text, _off, par, vot] =>
+          match unhex text, kv par "par", kv vot "vot" with
+          | some text, some par, some vot => some ⟨t, .som text par vot⟩
+          | _, _, _ => none
+        | _ => none
+    | none => none
+  | [] => none
+
+def parseScOuts (ans : List String) : Option (List Spec.Out) :=
+  match ans with
+  | ["-"] => some []
+  | [w] => (w.splitOn ",").mapM parseScOut
+  | _ => none
+
+def toSBurst (b : ScBurst) : Spec.SBurst := ⟨b.role, b.bytes, b.t, b.busy⟩
 
 def kvs (s key : String) : Option String :=
   if s.startsWith (key ++ "=") then some (s.drop (key.length + 1)).toString else none
@@ -442,6 +537,18 @@ def handleSpec (name : String) (ins ans : List String) : String :=
     | _, _, _, _ => "FAIL unparsable answer"
   | "spec.c15.expired", [exp] =>
     verdict (ans == [exp]) "expiry must hold exactly when now is strictly later than issue + duration"
+  | "spec.asm", which :: _tag :: tx :: _tEnd :: bursts =>
+    match bursts.mapM parseScBurst, parseScOuts ans, ((tx.drop 3).toString.splitOn "/").mapM unhex with
+    | some bs, some outs, some txs =>
+      let bs := bs.map toSBurst
+      match which with
+      | "c02" => optVerdict (Spec.oracleC02 txs bs outs)
+      | "c04" => optVerdict (Spec.oracleC04 bs outs)
+      | "c05" => optVerdict (Spec.oracleC05 txs bs outs)
+      | "c05w" => optVerdict (Spec.oracleC05Window bs outs)
+      | "c08" => optVerdict (Spec.oracleC08 bs outs)
+      | _ => "bad-op"
+    | _, _, _ => "FAIL unparsable scenario or answer"
   | "spec.c07.stream", [pb, ib, bs] =>
     match pb.toNat?, ib.toNat?, unhex bs with
     | some pb, some ib, some bs =>
@@ -496,6 +603,10 @@ def handleOp (args : List String) : String :=
   | ["hdrnbhd", seed, pos] =>
     match unhex seed, pos.toNat? with
     | some seed, some pos => s!"{(hdrnbhd seed pos).toNat}"
+    | _, _ => "bad-op"
+  | "asm.scenario" :: tEnd :: bursts =>
+    match tEnd.toNat?, bursts.mapM parseScBurst with
+    | some tEnd, some bs => showScenarioOut (runScenario tEnd bs)
     | _, _ => "bad-op"
   | ["framerhash", pb, ib, pre, depth, lo, hi] =>
     match pb.toNat?, ib.toNat?, unhex pre, depth.toNat?, lo.toNat?, hi.toNat? with
@@ -572,6 +683,7 @@ def handle (args : List String) : String :=
 /-- driver state for the stateful suites -/
 structure DState where
   fr : Option (FCfg × FState) := none
+  asm : AState := {}
 
 def handleSt (st : DState) (args : List String) : DState × String :=
   match args with
@@ -591,6 +703,27 @@ def handleSt (st : DState) (args : List String) : DState × String :=
       let (fs', ls) := fend fs
       ({ st with fr := some (c, fs') }, s!"{showLink ls} | {showFState fs'}")
     | none => (st, "bad-op")
+  | ["asm.new"] => ({ st with asm := {} }, "ok")
+  | ["asm.burst", b, t] =>
+    match unhex b, t.toNat? with
+    | some b, some t =>
+      let (a', o) := aAssemble st.asm b t
+      ({ st with asm := a' }, s!"{showTransport o} | {showAState a'}")
+    | _, _ => (st, "bad-op")
+  | ["asm.idle", t] =>
+    match t.toNat? with
+    | some t =>
+      let (a', o) := aIdle st.asm t
+      ({ st with asm := a' }, s!"{showTransport o} | {showAState a'}")
+    | none => (st, "bad-op")
+  | ["asm.pollrange", t1, t2] =>
+    match t1.toNat?, t2.toNat? with
+    | some t1, some t2 =>
+      let (a', outs) := (List.range (t2 - t1)).foldl (fun (acc : AState × List String) k =>
+        let (a', o) := aIdle acc.1 (t1 + k)
+        (a', showTransport o :: acc.2)) (st.asm, [])
+      ({ st with asm := a' }, s!"{rle outs.reverse} | {showAState a'}")
+    | _, _ => (st, "bad-op")
   | _ => (st, handle args)
 
 partial def loop (h : IO.FS.Stream) (out : IO.FS.Stream) (st : DState) : IO Unit := do
